@@ -34,6 +34,10 @@ BLOCKS = {
     # constants in every literal spelling float() accepts (exponent forms, bare leading / trailing dot, signs), one of them used as a divisor
     'constant-spellings': ("r = 2.5e-2\nb = coupon/r\ncoupon = 1E0\nm = -2\nh = .25\nw = 3.\nu = +1.5\nx = 0.5*x + G + h*m + w - u\nLB = b(k-1)\nb(0) = 40.0\n"
                            "Err_Tolerance = 0.01\nMaxTime = 2\nexogenous\nG = [1., 2., 3.]", 0.5, ['x'], ['G']),
+    # a block whose iteration vector has a single entry (a user-defined constant time axis and nothing else)
+    'single-variable': ("t = 2016.\nErr_Tolerance = 0.01\nMaxTime = 2", 0.0, [], []),
+    # a lag of a lagged variable (two-period lag written as a chain), with an initial condition on the intermediate lag
+    'lag-of-lag':     ("x = 0.5*LX + G\nLX = x(k-1)\nL2X = LX(k-1)\ny = 0.25*L2X + 1\nLX(0) = 3.0\nErr_Tolerance = 0.01\nMaxTime = 2\nexogenous\nG = [1., 2., 3.]", 0.0, ['x'], ['G']),
     'static-user-time': ("x = 0.5*y + c\ny = 0.5*x + 1\nc = 2.0\nt = 2016.\nErr_Tolerance = 0.01\nMaxTime = 2", 0.5, ['x', 'y'], []),
 }
 
